@@ -122,7 +122,16 @@ def composites():
         D.make('ClockDivider', 'div6', 120, 10, D.wire('ck6'))
         D.make('ClockDivider', 'div3', 60, 10, D.wire('ck3'), reset=D.wire('rst'))
         return None
-    return [('same-named children, different structure', same_inner), ('Reg x5 (shared names)', regs), ('Add x5 (shared names)', adds), ('Abs/Neg/Sign', abss), ('BufEnable/Latch/Comparator', misc),
+    def user_classes(D):
+        # instances of one user class (no structureName): combinational first, registered second; then nested ones of two widths
+        from .c02 import CASES_REL
+        a4, a8 = D.wire('a4', 4), D.wire('a8', 8)
+        D.make('HvStage', 's0', a4, D.wire('r0', 4), False, rel=CASES_REL)
+        D.make('HvStage', 's1', a4, D.wire('r1', 4), True, rel=CASES_REL)
+        D.make('HvLane', 'narrow', a4, D.wire('r2', 4), False, rel=CASES_REL)
+        D.make('HvLane', 'wide', a8, D.wire('r3', 8), True, rel=CASES_REL)
+        return None
+    return [('user classes without structureName', user_classes), ('same-named children, different structure', same_inner), ('Reg x5 (shared names)', regs), ('Add x5 (shared names)', adds), ('Abs/Neg/Sign', abss), ('BufEnable/Latch/Comparator', misc),
             ('inner wire named like an outer wire', shadow), ('second clock domain', two_domains), ('nested + fan-out', nested)]
 
 
@@ -216,7 +225,7 @@ def run_catalogue(ctx, facts, tier):
             a, b = ex[0], ex[1]
             la, lb = a[0].splitlines(), b[0].splitlines()
             diff = [(x, y) for x, y in zip(la, lb) if x != y][:3] or [('%d lines' % len(la), '%d lines' % len(lb))]
-            ctx.violation('C03.b', 'shared-name:%s:%s' % (mn, ' | '.join(diff[0])[:80]), 'two objects are emitted under the module name `%s` but their module texts differ: binding the second instance to the first body changes its %s'
+            ctx.violation('C03.b', 'shared-name:%s:%s' % (mn, ' | '.join(sorted(diff[0]))[:80]), 'two objects are emitted under the module name `%s` but their module texts differ: binding the second instance to the first body changes its %s'
                           % (mn, 'interface' if la[0] != lb[0] or any('input' in x or 'output' in x for x, _ in diff) else 'behaviour'), RTL,
                           witness=dict(module=mn, first=a[1], second=b[1], differing_lines=diff))
         else:
@@ -270,7 +279,9 @@ def run(ctx, sm, facts):
     ctx.rule('C03.b', 'objects emitted under one module name yield the same module text')
     ctx.rule('C03.c', 'reserved-word table covers IEEE 1364-2005')
     ctx.rule('C03.d', 'user-chosen names are emitted as legal identifiers')
-    run_catalogue(ctx, facts, ctx.tier)
+    from .c02 import overlay_source, CASES_REL
+    from ..facts import Facts
+    run_catalogue(ctx, Facts(sm.with_overlay({CASES_REL: overlay_source()})), ctx.tier)
     check_reserved(ctx, facts)
     check_naming(ctx, facts)
     ctx.not_decided += ['designs outside the catalogue; blocks emitted through the transpiler (C02)', 'vendor black boxes']
